@@ -56,7 +56,7 @@ def _split_classes(cls, n):
 
 def transactions_of(cfg):
     """-> list of class strings, one per mail transaction of the session"""
-    if cfg.get('prog') == 'two':
+    if cfg.get('prog') in ('two', 'auth-late'):
         return list(cfg['classes'].split('|'))
     return [cfg['classes']]
 
@@ -83,7 +83,7 @@ def build_script(cfg):
     add('banner', '220')
     exts = ['mx', '8BITMIME'] + (['PIPELINING'] if cfg['pipelining'] else [])
     hello_wire = b''.join(b'250' + (b' ' if i == len(exts) - 1 else b'-') + e.encode() + b'\r\n' for i, e in enumerate(exts))
-    if cfg.get('prog') == 'auth':
+    if cfg.get('prog') in ('auth', 'auth-late'):
         exts = exts + ['AUTH LOGIN PLAIN']
         hello_wire = b''.join(b'250' + (b' ' if i == len(exts) - 1 else b'-') + e.encode() + b'\r\n' for i, e in enumerate(exts))
     add('ehlo', '250', (hello_wire, 'mx'))
@@ -96,6 +96,11 @@ def build_script(cfg):
     for t, cls in enumerate(transactions_of(cfg)):
         pre = '' if t == 0 else 't%d-' % (t + 1)
         mail_c, rcpt_c, data_c, end_c = _split_classes(cls, n)
+        if t == 1 and cfg.get('prog') == 'auth-late':
+            # authentication between two messages, while replies of the first one may still be outstanding
+            for j, prompt in enumerate((b'VXNlcm5hbWU6', b'UGFzc3dvcmQ6')):
+                seq.append(('auth-chal%d' % j, '334', prompt.decode(), b'334 ' + prompt + b'\r\n'))
+            add('auth', '235' if cfg['hello2'] == '2' else '535')
         add(pre + 'mail', CODE[mail_c])
         for i in range(n):
             add(pre + 'rcpt%d' % i, '350' if rcpt_c[i] == '3' else CODE[rcpt_c[i]])
@@ -156,6 +161,8 @@ def session(cfg, sock):
             holders.append(('auth', c.auth('user', 'pw', mechanism=b'LOGIN')))
         for t in range(len(transactions_of(cfg))):
             pre = '' if t == 0 else 't%d-' % (t + 1)
+            if t == 1 and cfg.get('prog') == 'auth-late':
+                holders.append(('auth', c.auth('user', 'pw', mechanism=b'LOGIN')))
             holders.append((pre + 'mail', c.mailfrom('s%d@x' % t)))
             for i in range(cfg['n']):
                 holders.append((pre + 'rcpt%d' % i, c.rcptto('r%d@y' % i)))
@@ -316,6 +323,16 @@ def auth_scripts(tier):
                                'classes': cls, 'lshift': 0}
 
 
+def auth_late_scripts(tier):
+    for lmtp in (False, True):
+        for pipelining in (True, False):
+            for verdict in '25':
+                for c1 in ('2232', '252', '2252', '2234'):
+                    n = 1
+                    yield {'lmtp': lmtp, 'pipelining': pipelining, 'n': n, 'empty': False, 'prog': 'auth-late', 'hello2': verdict,
+                           'classes': c1 + '|2232', 'lshift': 0}
+
+
 def run_script(cfg, tier, res):
     script = build_script(cfg)
     body, make_sock, stream = make_body(cfg, script)
@@ -356,7 +373,7 @@ def configs(tier, seed):
 
 def run_config(cfg, tier, seed):
     res = Result()
-    for i, sc in enumerate(itertools.chain(scripts(tier), extra_scripts(tier), auth_scripts(tier))):
+    for i, sc in enumerate(itertools.chain(scripts(tier), extra_scripts(tier), auth_scripts(tier), auth_late_scripts(tier))):
         if i % cfg['of'] != cfg['k']:
             continue
         script, outs = run_script(sc, tier, res)
